@@ -35,6 +35,15 @@ def settrace(trace):
     osettrace(trace)
 
 
+def _threading_gettrace():
+    """Return the trace function set with ``threading.settrace``."""
+    try:
+        return threading.gettrace()
+    except AttributeError:  # pragma: no cover
+        # before Python 3.10
+        return threading._trace_hook
+
+
 class TestTrace(trace.Trace):
     """Simple tracer.
 
@@ -69,6 +78,9 @@ class TestTrace(trace.Trace):
     def start(self):
         assert not self.started, "can't start if already started"
         if not self.donothing:
+            # remember the trace functions in effect, ``stop`` restores them
+            self.old_trace = sys.gettrace()
+            self.old_threading_trace = _threading_gettrace()
             sys.settrace = settrace
             sys.settrace(self.globaltrace)
             threading.settrace(self.globaltrace)
@@ -78,8 +90,8 @@ class TestTrace(trace.Trace):
         assert self.started, "can't stop if not started"
         if not self.donothing:
             sys.settrace = osettrace
-            sys.settrace(None)
-            threading.settrace(None)
+            sys.settrace(self.old_trace)
+            threading.settrace(self.old_threading_trace)
         self.started = False
 
 
